@@ -8,7 +8,9 @@ META = {
                  "and response obtained by removing/adding/reordering rows or shares, truncating to sub-range proofs, "
                  "swapping inclusion and absence proofs, borrowing proofs of other rows/namespaces/squares; case "
                  "enumeration binding (B3) to the real NamespaceData/RowNamespaceData codecs and verifiers; honest "
-                 "data taken from both real producers (direct NMT build and proofs-cache tree walk); seeded byte garbling",
+                 "data taken from both real producers (direct NMT build and proofs-cache tree walk); seeded byte garbling; "
+                 "directed wide-namespace family (ODS 16 / 32, namespaces over 12 / 21 rows: every single-entry forgery of "
+                 "the model at every entry index, because the model's verifier is uniform in the entry index)",
     "level_text": "model_checking: for ODS widths 1, 2, 4, every layout of the plan (namespace in one row, spanning "
                   "rows, filling rows, absent inside a row's range, absent outside every range, reserved namespaces, "
                   "namespace/tail padding), every requested namespace and every response reachable by the forgery atoms: "
